@@ -23,6 +23,7 @@ Definition Q_INT_LONG := 9.      (* INT(x) typed LONG *)
 Definition Q_LEN_LONG := 10.     (* LEN / INSTR typed LONG *)
 Definition Q_DBL_INF := 11.      (* DOUBLE overflow gives inf instead of an error *)
 Definition Q_RESTORE_WRAP := 12. (* D11: RESTORE without label rewinds to "part -1": the items are read twice *)
+Definition Q_INT_NUMERAL := 13.  (* READ/INPUT into INTEGER/LONG accept only [sign]digits *)
 Definition no_quirks : Z -> bool := fun _ => false.
 
 Inductive vty := TI | TL | TS | TD | TStr.
@@ -545,6 +546,17 @@ Definition parse_numeral (s0 : str) : option (bool * Z * Z) :=
            end
          else None
        end.
+
+(* [sign] digits only (what qbee accepts for an integral variable, quirk Q_INT_NUMERAL) *)
+Definition plain_int (s0 : str) : bool :=
+  let s := strip_sp s0 in
+  let s1 := match s with
+            | c :: r => if (c =? ch_minus) || (c =? ch_plus) then r else s
+            | [] => s end in
+  match s1 with
+  | [] => false
+  | _ => forallb is_digit s1
+  end.
 
 (* nearest integer (ties to even) of c * 10^k, c >= 0 *)
 Definition dec_round (c k : Z) : Z :=
